@@ -20,6 +20,7 @@ import (
 	"net"
 	"net/http"
 	"strconv"
+	"strings"
 
 	"github.com/caddyserver/certmagic"
 	"github.com/tmpim/casket"
@@ -223,12 +224,19 @@ func redirPlaintextHost(cfg *SiteConfig) *SiteConfig {
 			toURL := "https://"
 			requestHost, _, err := net.SplitHostPort(r.Host)
 			if err != nil {
-				requestHost = r.Host // Host did not contain a port, so use the whole value
+				// Host did not contain a port, so use the whole value
+				// (without the brackets of an IPv6 literal, like SplitHostPort)
+				requestHost = r.Host
+				if strings.HasPrefix(requestHost, "[") && strings.HasSuffix(requestHost, "]") {
+					requestHost = requestHost[1 : len(requestHost)-1]
+				}
 			}
-			if redirPort == "" {
-				toURL += requestHost
-			} else {
+			if redirPort != "" {
 				toURL += net.JoinHostPort(requestHost, redirPort)
+			} else if strings.Contains(requestHost, ":") {
+				toURL += "[" + requestHost + "]" // IPv6 literal
+			} else {
+				toURL += requestHost
 			}
 
 			toURL += r.URL.RequestURI()
